@@ -52,6 +52,13 @@ class TagScenario(Scenario):
             if args not in self.requests:
                 self.requests.append(args)
             return self.ri_answer
+        if h == "mcall" and t[1] in ("index_of", "tick_at", "position_at"):
+            # the dimension is asked something else than the index range of the region: recorded, so that the request
+            # comparison reports it (a single lookup cannot express "no sample in the region")
+            args = [t[1]] + [self.ev(x) for x in t[3]]
+            if args not in self.requests:
+                self.requests.append(args)
+            return self.ri_answer[0] if isinstance(self.ri_answer, tuple) else 0
         if h == "call" and isinstance(t[1], str) and t[1].split(":")[-1] == "scaling":
             a, b = self.ev(t[2][0]), self.ev(t[2][1])
             r = SCALE.get((a, b), NOTHING)
